@@ -13,6 +13,7 @@ class ut_to_tokens:
     params = dict(self=T.RecT("UT"), coord=T.Coord)
     requires = ["coord[0] >= 0", "coord[1] >= 0"]
     ensures = {"C06.coord.UT": "len(result) == 1 and result[0] == '(' + str(coord[0]) + ',' + str(coord[1]) + ')'"}
+    result = T.ListT(T.Str)
     props = ["C06"]
 
 
@@ -27,4 +28,47 @@ class ctt_to_tokens:
         "C06.coord.CTT.numbers": "result[p] == str(coord[0]) and result[p + 1 + i] == str(coord[1])",
         "C06.coord.CTT.delimiters": "((result[0] == VOCAB.COORD_PRE) if self.pre else True) and ((result[p + 1] == VOCAB.COORD_INTRA) if self.intra else True) and ((result[p + i + 2] == VOCAB.COORD_POST) if self.post else True)",
     }
+    result = T.ListT(T.Str)
     props = ["C06"]
+
+
+TU = "maze_dataset/token_utils.py"
+
+
+@contract(TU, "_coord_to_strings_UT")
+class legacy_coord_ut:
+    """C07 (legacy, unique-token modes): a cell is the single token `(row,col)`"""
+    params = dict(coord=T.Coord)
+    requires = ["coord[0] >= 0", "coord[1] >= 0"]
+    ensures = {"C07.coord.UT": "len(result) == 1 and result[0] == '(' + str(coord[0]) + ',' + str(coord[1]) + ')'"}
+    result = T.ListT(T.Str)
+    props = ["C07"]
+
+
+@contract(TU, "_coord_to_strings_indexed")
+class legacy_coord_indexed:
+    """C07 (legacy, indexed mode): a cell is the five tokens ( row , col )"""
+    params = dict(coord=T.Coord)
+    requires = ["coord[0] >= 0", "coord[1] >= 0"]
+    ensures = {"C07.coord.indexed": "len(result) == 5 and result[0] == '(' and result[1] == str(coord[0]) and result[2] == ',' and result[3] == str(coord[1]) and result[4] == ')'"}
+    result = T.ListT(T.Str)
+    props = ["C07"]
+
+
+L = "/verif/contracts/lemmas_src.py"
+REGISTRY.class_files.update({"UT": MT, "CTT": MT})
+
+
+def _same_list(a, b, n):
+    return f"len(result[{a}]) == {n} and len(result[{b}]) == {n} and " + " and ".join(f"result[{a}][{k}] == result[{b}][{k}]" for k in range(n))
+
+
+@contract(L, "coord_tokens_agree")
+class coord_tokens_agree:
+    """Lemma C07.coords-agree: for every cell, the legacy unique-token modes and the modular UT tokenizer emit the same single token, and the legacy indexed
+    mode and the modular CTT tokenizer with its default delimiters (pre, intra, post all on) emit the same five tokens - from the four contracts"""
+    params = dict(ut=T.RecT("UT"), ctt=T.RecT("CTT", pre=T.Const(True), intra=T.Const(True), post=T.Const(True)), coord=T.Coord)
+    requires = ["coord[0] >= 0", "coord[1] >= 0"]
+    ensures = {"C07.coords-agree.UT": _same_list(0, 1, 1), "C07.coords-agree.CTT": _same_list(2, 3, 5)}
+    options = dict(no_concrete=True)
+    props = ["C07", "C06"]
